@@ -3,8 +3,8 @@
 package vaa
 
 import (
-	"fmt"
 	"bytes"
+	"fmt"
 	"testing"
 	"time"
 
